@@ -156,6 +156,7 @@ def make_hook(self_name, other_name, used):
                 return bitalg.Pred(lambda occ: spec(rows_as(occ, l, r)), f'{name}({l.text}, {r.text})')
         return None
 
+    hook.concept_term = concept_term
     return hook
 
 
@@ -249,6 +250,8 @@ def run(model, R):
             decide(R, target, specname)
             for o in R.obs[before:]:
                 o.slot = f'{sub.name}.{name} (override) -> {specname}'
+        elif isinstance(target, ast.Name) and target.id in sub.methods and ALIASES.get(name) == target.id:
+            R.ok('PREDICATE', f'{sub.key}.{name}', sub.node, f'{sub.name}.{name} is {target.id}')
         else:
             R.unknown('PREDICATE', f'{sub.key}.{name}', sub.node, f'{sub.name}.{name} (override)', 'rebinding that is not a method definition')
     return __doc__.strip()
